@@ -1,4 +1,4 @@
-\* exhaustive: 2 keys, initial objects absent|T1; streams len 1 rich (all forms/modifiers/faults), len 2 medium, len 3 quick order-level documents (19); ~60 k cases, ~8 s
+\* exhaustive: 2 keys, initial objects absent|T1; streams len 1 rich (all forms/modifiers/faults), len 2 medium, len 3 quick order-level documents (20, one of them a stray closing bracket); stray `]` / `}` stream elements at len 1 and 2; ~68 k states, ~8 s
 SPECIFICATION Spec
 CONSTANTS
   Keys = {"a", "b"}
